@@ -67,7 +67,7 @@ theorem sdVal_e0_ge (num den : Nat) (hn : 0 < num) (hd : 0 < den) :
   nlinarith [mul_le_mul_of_nonneg_left h1 h51.le]
 
 theorem ofRat_struct (neg : Bool) (num den : Nat) (hn : 0 < num) (hd : 0 < den)
-    (hlo : den ≤ num * 2 ^ 1000) (hhi : num ≤ den * 2 ^ 1000) :
+    (hlo : den ≤ num * 2 ^ 200) (hhi : num ≤ den * 2 ^ 200) :
     ∃ e : Int, 2 ^ 52 ≤ (scaledDiv num den e).1 ∧
       ofRat neg num den =
         (if roundHalfEven (scaledDiv num den e).1 (scaledDiv num den e).2 = 2 ^ 53
@@ -80,26 +80,26 @@ theorem ofRat_struct (neg : Bool) (num den : Nat) (hn : 0 < num) (hd : 0 < den)
   have hx0 := sdVal_e0_ge num den hn hd
   set a := Nat.log2 num
   set b := Nat.log2 den
-  have hab1 : b < a + 1001 := by
-    have : 2 ^ b < 2 ^ (a + 1001) := by
+  have hab1 : b < a + 201 := by
+    have : 2 ^ b < 2 ^ (a + 201) := by
       calc 2 ^ b ≤ den := hb1
-        _ ≤ num * 2 ^ 1000 := hlo
-        _ < 2 ^ (a + 1) * 2 ^ 1000 := Nat.mul_lt_mul_of_pos_right ha2 (by positivity)
-        _ = 2 ^ (a + 1001) := by rw [← pow_add]
+        _ ≤ num * 2 ^ 200 := hlo
+        _ < 2 ^ (a + 1) * 2 ^ 200 := Nat.mul_lt_mul_of_pos_right ha2 (by positivity)
+        _ = 2 ^ (a + 201) := by rw [← pow_add]
     exact (Nat.pow_lt_pow_iff_right (by norm_num)).mp this
-  have hab2 : a < b + 1001 := by
-    have : 2 ^ a < 2 ^ (b + 1001) := by
+  have hab2 : a < b + 201 := by
+    have : 2 ^ a < 2 ^ (b + 201) := by
       calc 2 ^ a ≤ num := ha1
-        _ ≤ den * 2 ^ 1000 := hhi
-        _ < 2 ^ (b + 1) * 2 ^ 1000 := Nat.mul_lt_mul_of_pos_right hb2 (by positivity)
-        _ = 2 ^ (b + 1001) := by rw [← pow_add]
+        _ ≤ den * 2 ^ 200 := hhi
+        _ < 2 ^ (b + 1) * 2 ^ 200 := Nat.mul_lt_mul_of_pos_right hb2 (by positivity)
+        _ = 2 ^ (b + 201) := by rw [← pow_add]
     exact (Nat.pow_lt_pow_iff_right (by norm_num)).mp this
   set e0 : Int := (a : Int) - (b : Int) - 52 with he0
   have hf0 := sd_floor num den e0 hd
   set q0 := (scaledDiv num den e0).1 with hq0
   obtain ⟨e1, he1, hlo1, hhi1, hx1⟩ : ∃ e1 : Int,
       e1 = (if q0 ≥ 2 ^ 53 then e0 + 1 else if q0 < 2 ^ 52 then e0 - 1 else e0) ∧
-      -1074 ≤ e1 ∧ e1 ≤ 970 ∧ (2 : ℚ) ^ 52 ≤ sdVal num den e1 := by
+      -1074 ≤ e1 ∧ e1 ≤ 170 ∧ (2 : ℚ) ^ 52 ≤ sdVal num den e1 := by
     refine ⟨_, rfl, ?_, ?_, ?_⟩
     · split_ifs <;> omega
     · split_ifs <;> omega
@@ -129,7 +129,7 @@ theorem ofRat_struct (neg : Bool) (num den : Nat) (hn : 0 < num) (hd : 0 < den)
 
 /-- **relative error of `ofRat`** (normal range, Nat-form range hypotheses) -/
 theorem ofRat_spec_nat (neg : Bool) (num den : Nat) (hn : 0 < num) (hd : 0 < den)
-    (hlo : den ≤ num * 2 ^ 1000) (hhi : num ≤ den * 2 ^ 1000) :
+    (hlo : den ≤ num * 2 ^ 200) (hhi : num ≤ den * 2 ^ 200) :
     ∃ (m : Nat) (e : Int), ofRat neg num den = .fin neg m e ∧ 2 ^ 52 ≤ m ∧
       |(m : ℚ) * (2 : ℚ) ^ e - (num : ℚ) / den| ≤ (num : ℚ) / den / 2 ^ 53 := by
   obtain ⟨e, hq, heq⟩ := ofRat_struct neg num den hn hd hlo hhi
@@ -140,7 +140,7 @@ theorem ofRat_spec_nat (neg : Bool) (num den : Nat) (hn : 0 < num) (hd : 0 < den
   set r := roundHalfEven q (scaledDiv num den e).2 with hrdef
   set X := sdVal num den e with hX
   set P := (2 : ℚ) ^ e with hP
-  have hPpos : 0 < P := by positivity
+  have hPpos : 0 < P := zpow_pos (by norm_num) e
   have hx : (num : ℚ) / den = X * P := by
     rw [hX, sdVal_eq, hP, mul_assoc, ← zpow_add₀ (by norm_num : (2 : ℚ) ≠ 0)]
     simp
@@ -162,32 +162,32 @@ theorem ofRat_spec_nat (neg : Bool) (num den : Nat) (hn : 0 < num) (hd : 0 < den
     refine ⟨2 ^ 52, e + 1, heq, le_refl _, ?_⟩
     rw [hx]
     have : ((2 ^ 52 : Nat) : ℚ) * (2 : ℚ) ^ (e + 1) = (r : ℚ) * P := by
-      rw [hc, zpow_add_one₀ (by norm_num : (2 : ℚ) ≠ 0)]
+      rw [hc, zpow_add_one₀ (by norm_num : (2 : ℚ) ≠ 0), hP]
       push_cast
-      rw [e53]; ring
+      ring
     rw [this]; exact hmain
   · rw [if_neg hc] at heq
     refine ⟨r, e, heq, le_trans hq hge, ?_⟩
     rw [hx]; exact hmain
 
-/-- **relative error of `ofRat`**: for a positive quotient between 2^-1000 and 2^1000 the result is
+/-- **relative error of `ofRat`**: for a positive quotient between 2^-200 and 2^200 the result is
     a finite float with mantissa ≥ 2^52 whose value is within a factor 2^-53 of the quotient -/
 theorem ofRat_spec (neg : Bool) (num den : Nat) (hn : 0 < num) (hd : 0 < den)
-    (hlo : (1 : ℚ) / 2 ^ 1000 ≤ (num : ℚ) / den) (hhi : (num : ℚ) / den ≤ 2 ^ 1000) :
+    (hlo : (1 : ℚ) / 2 ^ 200 ≤ (num : ℚ) / den) (hhi : (num : ℚ) / den ≤ 2 ^ 200) :
     ∃ (m : Nat) (e : Int), ofRat neg num den = .fin neg m e ∧ 2 ^ 52 ≤ m ∧
       |(m : ℚ) * (2 : ℚ) ^ e - (num : ℚ) / den| ≤ (num : ℚ) / den / 2 ^ 53 := by
   have hd' : (0 : ℚ) < den := by exact_mod_cast hd
   apply ofRat_spec_nat neg num den hn hd
   · rw [le_div_iff₀ hd', div_mul_eq_mul_div, div_le_iff₀ (by positivity)] at hlo
-    have : (den : ℚ) ≤ (num : ℚ) * 2 ^ 1000 := by linarith
+    have : (den : ℚ) ≤ (num : ℚ) * 2 ^ 200 := by linarith
     exact_mod_cast this
   · rw [div_le_iff₀ hd'] at hhi
-    have : (num : ℚ) ≤ (den : ℚ) * 2 ^ 1000 := by linarith
+    have : (num : ℚ) ≤ (den : ℚ) * 2 ^ 200 := by linarith
     exact_mod_cast this
 
 theorem scaledDiv_one_nonpos (v k : Nat) : scaledDiv v 1 (-(k : Int)) = (v * 2 ^ k, 0) := by
   rcases Nat.eq_zero_or_pos k with rfl | hk
-  · simp [scaledDiv]
+  · simp [scaledDiv, Nat.mod_one]
   · have : k ≠ 0 := by omega
     simp [scaledDiv, this, Nat.mod_one]
 
@@ -195,9 +195,8 @@ theorem scaledDiv_one_nonpos (v k : Nat) : scaledDiv v 1 (-(k : Int)) = (v * 2 ^
 theorem ofRat_nat_exact (neg : Bool) (v : Nat) (hv0 : 0 < v) (hv : v < 2 ^ 53) :
     ∃ (m : Nat) (e : Int), ofRat neg v 1 = .fin neg m e ∧ 2 ^ 52 ≤ m ∧ (m : ℚ) * (2 : ℚ) ^ e = v := by
   obtain ⟨e, hq, heq⟩ := ofRat_struct neg v 1 hv0 Nat.one_pos
-    (by have : 0 < 2 ^ 1000 := by positivity
-        nlinarith)
-    (by have : 2 ^ 53 ≤ 1 * 2 ^ 1000 := by norm_num
+    (Nat.mul_pos hv0 (by positivity))
+    (by have : 2 ^ 53 ≤ 1 * 2 ^ 200 := by norm_num
         omega)
   have hepos : e ≤ 0 := by
     by_contra hcon
@@ -222,8 +221,7 @@ theorem ofRat_nat_exact (neg : Bool) (v : Nat) (hv0 : 0 < v) (hv : v < 2 ^ 53) :
     refine ⟨2 ^ 52, -(k : Int) + 1, heq, le_refl _, ?_⟩
     rw [← hval, hc, zpow_add_one₀ (by norm_num : (2 : ℚ) ≠ 0)]
     push_cast
-    have e53 : (2 : ℚ) ^ 53 = 2 * 2 ^ 52 := by norm_num
-    rw [e53]; ring
+    ring
   · rw [if_neg hc] at heq
     exact ⟨v * 2 ^ k, -(k : Int), heq, hq, hval⟩
 
